@@ -251,7 +251,7 @@ func c09Run(r *fw.R, d c09Desc) {
 		blockedCalls = append(blockedCalls, b)
 		go func() { defer close(b.done); f() }()
 	}
-	var crCtx context.Context
+	var crCtx, crCtx2 context.Context
 	switch d.State {
 	case "reader-blocked":
 		block("Read", func() {
@@ -271,6 +271,11 @@ func c09Run(r *fw.R, d c09Desc) {
 		}
 	case "closeread":
 		crCtx = c.CloseRead(ctx)
+		// CloseRead is idempotent; what a later call returns must end with the connection too
+		crCtx2 = c.CloseRead(ctx)
+		if d.Seed%2 == 0 {
+			crCtx, crCtx2 = crCtx2, crCtx
+		}
 	case "writer-blocked", "writer-blocked-deflate":
 		for i := 0; i < 2; i++ {
 			block("Write", func() {
@@ -344,6 +349,14 @@ func c09Run(r *fw.R, d c09Desc) {
 			timing("C09/closeread-context-never-cancelled/"+d.Adversary, "the CloseRead context was still live 40 s after a data message arrived")
 			return
 		}
+		if crCtx2 != nil {
+			select {
+			case <-crCtx2.Done():
+			case <-time.After(5 * time.Second):
+				timing("C09/closeread-context-never-cancelled/second-call", "the context returned by a second (idempotent) CloseRead call was still live 5 s after the first one ended")
+				return
+			}
+		}
 		el := time.Since(tSend)
 		tc := time.Duration(transportClosedAt.Load())
 		r.Count("closeread_contexts_timed", 1)
@@ -408,6 +421,14 @@ func c09Run(r *fw.R, d c09Desc) {
 			if lag := time.Since(tRet); lag > c09UnblockBound {
 				timing("C09/blocked-call-released-late/"+b.what+"/"+d.State, fmt.Sprintf("a blocked %s call returned %v after %s had returned", b.what, lag.Round(time.Millisecond), d.Closer))
 			}
+		}
+	}
+	if crCtx2 != nil {
+		select {
+		case <-crCtx2.Done():
+		case <-time.After(c09UnblockBound + 3*time.Second):
+			timing("C09/closeread-context-never-cancelled/second-call", "the context returned by a second (idempotent) CloseRead call was still live 5 s after "+d.Closer+" returned")
+			return
 		}
 	}
 	if crCtx != nil {
